@@ -127,6 +127,15 @@ const AZ: AtomicU64 = AtomicU64::new(0);
 static SITE_HITS: [AtomicU64; NSITES] = [AZ; NSITES];
 static WRITER_THREADS: Mutex<Vec<std::thread::ThreadId>> = Mutex::new(Vec::new());
 
+static PT0: std::sync::OnceLock<Instant> = std::sync::OnceLock::new();
+static HOLD_UNTIL: AtomicU64 = AtomicU64::new(0);
+static DECISIONS: AtomicU64 = AtomicU64::new(0);
+static WAITERS: AtomicU64 = AtomicU64::new(0);
+static AMBUSHES: AtomicU64 = AtomicU64::new(0);
+thread_local! {
+    static LAST_SITE: std::cell::Cell<u32> = const { std::cell::Cell::new(u32::MAX) };
+}
+
 fn perturb_hook(site: u32) {
     let c = PCOUNT.fetch_add(1, Ordering::Relaxed);
     if (site as usize) < NSITES {
@@ -146,6 +155,87 @@ fn perturb_hook(site: u32) {
     }
     let mut r = SplitMix(seed ^ c.wrapping_mul(0x9E3779B97F4A7C15) ^ ((site as u64) << 56));
     let h = r.next();
+    // "Window" mode (seed bit 1): the completion bookkeeping of the sieves (count, target, gap, done) is only
+    // consulted when a worker finishes a polynomial (status read: sites 3, 9, 18) or picks up the next work item
+    // (closure start: sites 1, 7, 13, 16).  A state that is wrong only between one insertion and the next status
+    // read is visible to a worker that sits at a closure start just then, which in an undisturbed run lasts
+    // microseconds.  Here every worker is held for 0..3 ms at each of these sites (and nowhere else), so that
+    // almost all of the run is spent inside such windows, at the price of a run about ten times slower.
+    // "Ambush" mode (seed bit 3): the adversarial schedule for decisions taken on the shared completion state.
+    // Up to two workers that pick up a further work item (closure start, not their first) wait there until some
+    // other worker reaches a decision site (5, 10: the relation count reached the target and the gap is about
+    // to be computed; 14, 15: ECM found a factor and is about to publish it).  That worker is then held for
+    // 2 ms while the waiting workers are released and act at full speed on the state as it is at that instant.
+    // A waiting worker gives up after 0.5 s (nothing decided meanwhile).
+    if seed & 8 != 0 {
+        let prev = LAST_SITE.with(|c| c.replace(site));
+        if matches!(site, 1 | 7 | 13) && prev != u32::MAX && prev != site {
+            let gen = DECISIONS.load(Ordering::SeqCst);
+            if WAITERS.fetch_add(1, Ordering::SeqCst) < 2 {
+                let mut spins = 0;
+                while DECISIONS.load(Ordering::SeqCst) == gen && spins < 5000 {
+                    std::thread::sleep(std::time::Duration::from_micros(100));
+                    spins += 1;
+                }
+                if spins >= 5000 {
+                    // stop ambushing in this run: do not pay the wait again
+                    WAITERS.store(1 << 20, Ordering::SeqCst);
+                } else {
+                    AMBUSHES.fetch_add(1, Ordering::SeqCst);
+                    WAITERS.fetch_sub(1, Ordering::SeqCst);
+                }
+            } else {
+                WAITERS.fetch_sub(1, Ordering::SeqCst);
+            }
+        } else if matches!(site, 5 | 10 | 14 | 15) {
+            let w = WAITERS.load(Ordering::SeqCst);
+            DECISIONS.fetch_add(1, Ordering::SeqCst);
+            if w > 0 && w < (1 << 19) && PSLEEPS.fetch_add(1, Ordering::Relaxed) < 200 {
+                std::thread::sleep(std::time::Duration::from_millis(2));
+            }
+        }
+        return;
+    }
+    // "Freeze" mode (seed bit 2): a worker that picks up a further work item (closure start, not its first) is
+    // held for about 2 ms, and for that time plus a margin no other worker may pass a status read: they finish
+    // the polynomial they are sieving (insertions included) and then wait.  The held worker thus acts on
+    // bookkeeping that is several polynomials stale, the widest staleness the code allows by construction.
+    if seed & 4 != 0 {
+        let start = matches!(site, 1 | 7 | 13 | 16);
+        let prev = LAST_SITE.with(|c| c.replace(site));
+        let now = PT0.get_or_init(Instant::now).elapsed().as_micros() as u64;
+        if start && prev != u32::MAX && prev != site && PSLEEPS.fetch_add(1, Ordering::Relaxed) < 400 {
+            let d = 500 + (h >> 8) % 2500;
+            HOLD_UNTIL.fetch_max(now + d + 300, Ordering::SeqCst);
+            std::thread::sleep(std::time::Duration::from_micros(d));
+        } else if matches!(site, 3 | 9 | 18) {
+            let mut spins = 0;
+            while (PT0.get().unwrap().elapsed().as_micros() as u64) < HOLD_UNTIL.load(Ordering::SeqCst) && spins < 100_000 {
+                std::thread::sleep(std::time::Duration::from_micros(50));
+                spins += 1;
+            }
+        }
+        return;
+    }
+    // A worker whose previous work item returned without reaching any other yield point is not held again at
+    // the closure start: a worker that skips items does so at full speed, as it would undisturbed.
+    if seed & 2 != 0 {
+        let start = matches!(site, 1 | 7 | 13 | 16);
+        let skipping = LAST_SITE.with(|c| c.replace(site)) == site && start;
+        if (start || matches!(site, 3 | 9 | 18)) && !skipping && PSLEEPS.fetch_add(1, Ordering::Relaxed) < 6000 {
+            let us = (h >> 8) % 3000;
+            std::thread::sleep(std::time::Duration::from_micros(us));
+        }
+        return;
+    }
+    // Sites 5 (SIQS) and 10 (MPQS) sit between "the relation count reached the target" and "the gap was
+    // computed and the target raised / done set": they are visited a handful of times per run, exactly when
+    // the completion bookkeeping shared by the workers is in flux.  Holding a worker there for several
+    // milliseconds (half of the visits) lets every other worker run through that window.
+    if matches!(site, 5 | 10) && h & 1 == 0 && PSLEEPS.fetch_add(1, Ordering::Relaxed) < 400 {
+        std::thread::sleep(std::time::Duration::from_millis(4 + (h >> 8) % 16));
+        return;
+    }
     // PCT-flavoured: most points pass untouched, a few yield, fewer spin, rare sleeps
     match h % 64 {
         0..=51 => {}
@@ -172,6 +262,8 @@ fn perturb_hook(site: u32) {
 fn perturb_install(seed: Option<u64>) {
     PCOUNT.store(0, Ordering::SeqCst);
     PSLEEPS.store(0, Ordering::SeqCst);
+    WAITERS.store(0, Ordering::SeqCst);
+    AMBUSHES.store(0, Ordering::SeqCst);
     for s in SITE_HITS.iter() {
         s.store(0, Ordering::SeqCst);
     }
@@ -195,6 +287,7 @@ pub fn run_factor(n: &U1024, algo: &str, p: &PrefSpec) -> Value {
         v["yield_points"] = json!(PCOUNT.load(Ordering::SeqCst));
         v["site_hits"] = json!(hits);
         v["writer_threads"] = json!(WRITER_THREADS.lock().unwrap().len());
+        v["ambushes"] = json!(AMBUSHES.load(Ordering::SeqCst));
     }
     v
 }
